@@ -226,6 +226,10 @@ type State struct {
 	// (finite float64 x): byte regions / strings known to be the JSON text of a float value
 	textFloat map[int64]*Term
 	strFloat  map[*Term]*Term
+	// ghost lock state: region of a package-level mutex -> 0 free, 1 read-locked, 2 write-locked
+	locks map[int64]int8
+	// access hook for lock-protected globals (set when the package declares `protects`)
+	accessHook func(st *State, a *Term, write bool)
 	havocUB int64 // while a callee's frame is havocked: upper bound for the regions of unknown pointers
 }
 
@@ -234,6 +238,12 @@ func (st *State) Clone() *State {
 	n.mem = st.mem.Clone()
 	n.assumes = append([]*Term{}, st.assumes...)
 	n.foreign = append([][2]int64{}, st.foreign...)
+	if st.locks != nil {
+		n.locks = make(map[int64]int8, len(st.locks))
+		for k, v := range st.locks {
+			n.locks[k] = v
+		}
+	}
 	nr := *st.nextRg
 	n.nextRg = &nr
 	n.mapKeys = map[int64][]*Term{}
@@ -262,6 +272,9 @@ func (st *State) FreshRegion() *Term {
 }
 
 func (st *State) loadScalar(s Sort, a *Term) *Term {
+	if st.accessHook != nil {
+		st.accessHook(st, a, false)
+	}
 	if s == BV(8) && len(st.regionSeq) > 0 {
 		if v := st.loadFromSegs(a); v != nil {
 			return v
@@ -285,6 +298,9 @@ func (st *State) noteLoadedAddr(v *Term) {
 }
 
 func (st *State) storeScalar(s Sort, a, v *Term) {
+	if st.accessHook != nil {
+		st.accessHook(st, a, true)
+	}
 	if s == BV(8) && len(st.regionSeq) > 0 {
 		if r := Rg(a); r.IsConst() {
 			if _, tracked := st.regionSeq[r.Val.Int64()]; tracked {
